@@ -299,6 +299,14 @@ func TestC04(t *testing.T) {
 			}
 			rep.Count("arbitrary_payload_lengths", 1)
 		}
+		// lengths that do not fit the one-byte length field of a frame (the decoder is a public function: nothing guarantees
+		// that its caller took the payload out of a frame): v1 still demands the exact base size
+		for _, n := range []int{256, 257, mi.Layout.SizeBase + 256, mi.Layout.SizeBase + 512, mi.Layout.SizeExt + 256, mi.Layout.SizeBase + 65536, 511, 512} {
+			p := r.Bytes(n)
+			env.checkDecode(mi, p, false, "arbitrary-long")
+			env.checkDecode(mi, p, true, "arbitrary-long")
+			rep.Count("payloads_longer_than_255", 1)
+		}
 		if ti%101 == 0 {
 			val := reflect.New(mi.Type)
 			vh.FillMessage(r, mi.Layout, val, vh.ModeMixed)
